@@ -9,7 +9,7 @@ def c01_suites(tier):
 
 def c02_suites(tier):
     return [gens.PNStringSuite(), gens.PermuteSuite(), gens.MethodRowsSuite(with_calls=False, with_reset=True), gens.GenHistorySuite(),
-            gens.XmlMethodSuite(), gens.CreateRowGenSuite()]
+            gens.XmlMethodSuite(), gens.CreateRowGenSuite(), system.ServerSuite(light=True)]
 
 
 def c03_suites(tier):
